@@ -823,6 +823,8 @@ type SFut = Pin<Box<dyn Future<Output = SendRes>>>;
 fn err_name(e: &ntex_mqtt::error::SendPacketError) -> String {
     use ntex_mqtt::error::SendPacketError as E;
     match e {
+        // (refused because a streamed PUBLISH still owes payload: judged separately - it is legitimate only then)
+        E::Encode(ntex_mqtt::error::EncodeError::ExpectPayload) => "ExpectPayload".into(),
         E::Encode(_) => "Encode".into(),
         E::PacketIdInUse(_) => "PacketIdInUse".into(),
         E::UnexpectedRelease => "UnexpectedRelease".into(),
@@ -1697,6 +1699,7 @@ pub async fn run_conn(ctx: Rc<Ctx>, cmds: Vec<Value>) {
                         Ev::new("send_call")
                             .s(s)
                             .k(c.get("k").and_then(Value::as_str).unwrap_or("q1"))
+                            .n(c.get("plen").and_then(Value::as_i64).unwrap_or(0))
                             .id(c.get("id").and_then(Value::as_i64).unwrap_or(0)),
                     );
                     snd.slots.insert(
@@ -1710,6 +1713,7 @@ pub async fn run_conn(ctx: Rc<Ctx>, cmds: Vec<Value>) {
                         Ev::new("send_call")
                             .s(s)
                             .k(c.get("k").and_then(Value::as_str).unwrap_or("q1"))
+                            .n(c.get("plen").and_then(Value::as_i64).unwrap_or(0))
                             .id(c.get("id").and_then(Value::as_i64).unwrap_or(0)),
                     );
                     ctx.emit(Ev::new("send_done").s(s).k(r.k).id(r.id).r(r.r));
